@@ -144,6 +144,29 @@ def emitted_json_lines(path):
     return out
 
 
+def drop_partial_tail(path):
+    """A recorder whose process died may leave an incomplete last line: keep the complete lines only."""
+    if not os.path.exists(path):
+        open(path, "w").close()
+        return 0
+    keep, dropped = [], 0
+    with open(path, "rb") as f:
+        data = f.read()
+    lines = data.split(b"\n")
+    for i, ln in enumerate(lines):
+        if not ln.strip():
+            continue
+        try:
+            json.loads(ln)
+            keep.append(ln)
+        except Exception:
+            dropped += 1
+    if dropped:
+        with open(path, "wb") as f:
+            f.write(b"\n".join(keep) + b"\n")
+    return dropped
+
+
 # ---- trace chunking + parallel validation ---------------------------------------------
 def split_trace(path, nchunks, outdir, marker='"e":"reset"'):
     """Split an ndjson trace into <= nchunks files at scenario ("reset") boundaries."""
